@@ -23,6 +23,9 @@ Inductive case :=
     [Spec.shutdown_expired_ok].  [before]: requests seen before Shutdown was called. *)
 | CShutdownExpired (exporter variant : N) (before : nat) (shutdown_returned export_returned : bool)
                    (export_err : N) (late_requests : nat) (later_err : N)
+(** WithTimeout x headers (0 none, 1 WithHeaders, 2 environment) x collector (hanging / always retry-able); see [Spec.timeout_ok]. *)
+| CTimeout (exporter headers : N) (hang : bool) (timeout_ns bound_ns : Z) (returned : bool) (err : N)
+           (elapsed_ns : Z) (late attempts : nat) (headers_ok : bool)
 | CBurst (exporter : N) (gzip : bool) (attempts : nat) (decoded : list N) (own : list bool) (err handled : N).
 
 Definition flag (b : bool) (code : N) : list N := if b then [] else [code].
@@ -74,6 +77,8 @@ Definition check_case (c : case) : list N :=
       flag (throttled_ok max_ns min_delay_ns delays attempts bodies gaps err elapsed_ns) V_SPECFAIL
   | CShutdownExpired exporter variant before sret eret eerr late later =>
       flag (shutdown_expired_ok sret eret eerr late later) V_SPECFAIL
+  | CTimeout exporter headers hang timeout_ns bound_ns returned err elapsed_ns late attempts headers_ok =>
+      flag (timeout_ok returned err elapsed_ns bound_ns late attempts headers_ok) V_SPECFAIL
   | CBurst exporter gzip attempts decoded own err handled =>
       let m := model_run true 0 None [RespHttp 503 None false; RespHttp 200 None false] in
       flag (Nat.eqb (Types.attempts m) attempts && (class_of_result (res m) =? err)%N &&
